@@ -31,6 +31,11 @@ META = {
         note=COMMON_NOTE,
         technique="Lean 4 proof (success-path characterisation) + differential correspondence + trace monitor",
     ),
+    "C06": dict(
+        text="Kernel-checked theorems over the Lean model of token/hmac (Generate, Validate with its key loop and early exit, validate, Signature) and the prefixed / device-code strategies, for every secret, rotated-secret list and token string, with MAC and base64 as parameters: Validate equals a loop-free verdict; acceptance iff the token is a.b with non-empty decodable parts and some configured key of >=32 bytes authenticates the random part against the signature part with every earlier key >=32 bytes and mismatching; short and missing secrets are refused; minted tokens validate (also after rotation) and carry the returned signature; altered parts and foreign-key tokens are rejected (under explicit MAC hypotheses); distinct random parts give distinct tokens; max(entropy,32) random bytes. Tied to /repo by a differential run of the real functions on minted tokens and all their mutations.",
+        note=COMMON_NOTE + "HMAC half; the JWT access-token decision logic is not modelled yet (listed under partial). Cryptographic strength (unforgeability, collision freedom, freshness of crypto/rand) is assumed as named hypotheses, not proved.",
+        technique="Lean 4 proof (model = declarative verdict by induction over the key list) + differential correspondence with the real HMAC strategies",
+    ),
     "C08": dict(
         text="Kernel-checked refinement: the revocation endpoint equals a pure function of the state (revokePure) on every input; from it: unauthenticated and foreign callers change nothing and get the prescribed errors, unknown tokens are success no-ops, and under the grant invariant an owner's revocation of a live refresh token leaves it dead.",
         note=COMMON_NOTE,
@@ -40,6 +45,11 @@ META = {
         text="Kernel-checked refinement: IntrospectToken equals a pure function of store, clock and configuration and never changes the state; soundness (reported active => record present, exact copy, unexpired, scopes covered, reported request is the record), completeness for live access tokens, hint-independence of liveness, no refresh tokens when disabled, tampered presentations never active.",
         note=COMMON_NOTE,
         technique="Lean 4 proof (refinement to a pure function) + differential correspondence + trace monitor",
+    ),
+    "C11": dict(
+        text="Kernel-checked theorems over the Lean model of the redirect-URI decision functions, for every parser behaviour, every requested string and every registration: the matcher returns exactly the documented target (string-identical registered URI, the single registered URI when the parameter is omitted, or an http loopback-IP variant agreeing on host name, path and query) and invalid_request otherwise; accepted targets are absolute and fragment-free; the default secure-checker admits plain http only on loopback/localhost hosts. Tied to /repo by bounded-exhaustive + near-miss + seeded differential runs on the real functions; the documented meaning is evaluated against the implementation independently as a monitor.",
+        note=COMMON_NOTE + "Pure decision part only; the response-writer/placement half is listed under evidence.coverage.partial.",
+        technique="Lean 4 proof (model = spec by induction over the registration list) + differential correspondence with the Go functions + spec monitor",
     ),
     "C12": dict(
         text="Kernel-checked equivalence between the Lean model of each scope/audience strategy loop and its documented meaning for all inputs (induction over segment lists), with the model tied to the Go functions by bounded-exhaustive + seeded differential runs; the documented meaning is also evaluated directly against the implementation as a monitor.",
